@@ -118,6 +118,9 @@ pub fn plan_for(prop: &str, thorough: bool, seed: u64) -> Plan {
 pub fn gen_case(prop: &str, thorough: bool, run_seed: u64) -> Case {
     let mut rng = Rng::new(mix2(run_seed, 0xC0FF_EE));
     let mut case = crate::cgen::generate(prop, thorough, &mut rng);
+    if case.scenario != "mem" {
+        case.cfg.insert("comp_real".into(), 1);
+    }
     if !case.cfg.contains_key("sched_bias") {
         let bias = *rng.pick(&[0i64, 32, 51, 58, 61]);
         case.cfg.insert("sched_bias".into(), bias);
